@@ -146,6 +146,21 @@ def roots(tier, seed):
                     B["cons"] = [{"kind": "lin", "A": A["cons"][0]["A"] + A["cons"][1]["A"],
                                   "lb": [-INF, -INF], "ub": A["cons"][0]["ub"] + A["cons"][1]["ub"]}]
                     pair("regroup:linear", A, B)
+                    # an equality row and a two-sided row: separate objects vs one object mixing both kinds
+                    A = alpha.base_case(n, pats2, where, obj, [alpha.constraint("lin_eq", n), alpha.constraint("lin_two", n)],
+                                        options=dict(cap))
+                    B = copy.deepcopy(A)
+                    B["cons"] = [{"kind": "lin", "A": A["cons"][0]["A"] + A["cons"][1]["A"],
+                                  "lb": A["cons"][0]["lb"] + A["cons"][1]["lb"],
+                                  "ub": A["cons"][0]["ub"] + A["cons"][1]["ub"]}]
+                    pair("regroup:linear-mixed", A, B)
+                    A = alpha.base_case(n, pats2, where, obj, [alpha.constraint("ball_eq", n), alpha.constraint("nl_aff_le", n)],
+                                        options=dict(cap))
+                    B = copy.deepcopy(A)
+                    B["cons"] = [{"kind": "nl", "form": "nlc", "funs": A["cons"][0]["funs"] + A["cons"][1]["funs"],
+                                  "lb": A["cons"][0]["lb"] + A["cons"][1]["lb"],
+                                  "ub": A["cons"][0]["ub"] + A["cons"][1]["ub"]}]
+                    pair("regroup:nonlinear-mixed", A, B)
                     A = alpha.base_case(n, pats2, where, obj, "two_nl", options=dict(cap))
                     B = copy.deepcopy(A)
                     B["cons"] = [{"kind": "nl", "form": "nlc", "funs": A["cons"][0]["funs"] + A["cons"][1]["funs"],
@@ -269,7 +284,7 @@ def run_case(root):
 def coverage(agg, tier, roots_):
     s = agg.stats
     kinds = ["fixed-vs-reduced", "fixed-vs-reduced:scaled", "fixed+scale-vs-reduced+rescaled", "bounds-forms", "scale-vs-rescaled", "dict-vs-nlc", "two-sided-vs-split:linear",
-             "two-sided-vs-split:nonlinear", "regroup:linear", "regroup:nonlinear", "nan-vs-inf-limits"]
+             "two-sided-vs-split:nonlinear", "regroup:linear", "regroup:nonlinear", "regroup:linear-mixed", "regroup:nonlinear-mixed", "nan-vs-inf-limits"]
     herr = [f"no pair of kind {k}" for k in kinds if not s.get("pair_" + k)]
     if not s.get("residual_points"):
         herr.append("no linear residual compared")
